@@ -9,6 +9,8 @@ partial def readAll (h : IO.FS.Stream) (acc : Array String) : IO (Array String) 
 
 def dispatch (name : String) (lines : List String) : Option (List String) :=
   match name with
+  | "funccompile" => some (Sympler.FuncCompile.driver lines)
+  | "stages" => some (Sympler.Stages.driver lines)
   | _ => none
 
 def main : IO UInt32 := do
